@@ -157,34 +157,37 @@ def handle_quic_packet(packet: Packet, keylog, quic_sessions: list[QuicSession],
             case _:
                 quic_version = QuicVersion.UNKNOWN
 
-    # first try matching connection IDs: over all sessions the longest matching ID wins (a short header does not
-    # tell how long its connection ID is, so one session's ID may be a prefix of another's), matching addresses
-    # break ties
+    # a session whose addresses match takes precedence (a zero-length connection ID is identified by nothing else, and
+    # a short ID of another connection may equal the first bytes of any packet); among sessions of equal address status
+    # the longest matching connection ID wins (a short header does not tell how long its ID is, so one session's ID may
+    # be a prefix of another's). A connection-ID match alone is only used for packets from unknown addresses (migration).
     candidate = None
     for session in quic_sessions:
         addr_match = session.matches_session_dgram(packet.ip_src, packet.ip_dst, packet.sport, packet.dport)
+        matched_cid = None
         if header_type == QuicHeaderType.LONG:
-            # a zero-length connection id identifies nothing, such packets are matched by address below
             if len(dcid) > 0 and (dcid in session.client_cids or dcid in session.server_cids):
-                if candidate is None or (len(dcid), addr_match) > candidate[0]:
-                    candidate = ((len(dcid), addr_match), session, dcid)
+                matched_cid = dcid
         else:
             # match by checking all known cid lengths for session, longest first
             for cid in sorted(session.client_cids | session.server_cids, key=len, reverse=True):
                 if len(cid) > 0 and cid == packet_payload[1:1 + len(cid)]:
-                    if candidate is None or (len(cid), addr_match) > candidate[0]:
-                        candidate = ((len(cid), addr_match), session, cid)
+                    matched_cid = cid
                     break
+        if matched_cid is not None:
+            rank = (addr_match, len(matched_cid))
+        elif addr_match:
+            # zero length (or not yet known) connection id: matched by ip address and port only
+            rank = (True, -1)
+            matched_cid = dcid
+        else:
+            continue
+        if candidate is None or rank > candidate[0]:
+            candidate = (rank, session, matched_cid)
 
     if candidate is not None:
         candidate[1].handle_packet(packet, candidate[2], quic_version)
         return
-
-    for session in quic_sessions:
-        # check matching ip address and port for zero length cids
-        if session.matches_session_dgram(packet.ip_src, packet.ip_dst, packet.sport, packet.dport):
-            session.handle_packet(packet, dcid, quic_version)
-            return
 
     if header_type != QuicHeaderType.SHORT:
         new_session = QuicSession(packet, server_ports, keylog, portmap, keep_original_ports)
